@@ -296,7 +296,7 @@ def _week53(names, st):
 
 def gen_project(R, bvmods, today, *, eol_choices=("\n",), filler="plain", legacy=False, n_files=None,
                 max_patterns=4, vp=None, state=None, shared_line_p=0.35, cfg_fmt=None, globs=True,
-                allow_partial=True, commit_cfg=None):
+                allow_partial=True, commit_cfg=None, bom_p=0.0):
     """Generate one project. Returns (Project, None) or (None, discard_reason)."""
     proj = Project()
     proj.legacy = legacy
@@ -434,6 +434,9 @@ def gen_project(R, bvmods, today, *, eol_choices=("\n",), filler="plain", legacy
             for _ in range(R.randint(0, 2)):
                 lines.append([(fill(R), None)])
         final_nl = R.random() < 0.7
+        if bom_p and R.random() < bom_p:
+            lines[0][0] = ("\ufeff" + lines[0][0][0], lines[0][0][1])
+            proj.meta.setdefault("bom_files", []).append(fn)
         out = []
         pos = 0
         plants = []
@@ -459,6 +462,7 @@ def gen_project(R, bvmods, today, *, eol_choices=("\n",), filler="plain", legacy
 
     # config file + its own planted line
     cfg_text = build_config(proj, R, quote=quote, extra=commit_cfg)
+    proj.meta["cfg_extra"] = commit_cfg
     proj.files[proj.cfg_name] = cfg_text
     q = '"' if (fmt == "toml" or quote) else ""
     needle = f"current_version = {q}{proj.cur_text}{q}"
@@ -486,7 +490,7 @@ def gen_project(R, bvmods, today, *, eol_choices=("\n",), filler="plain", legacy
     why = prove_unambiguous(proj)
     if why:
         return None, "layout:" + why.split(":")[0]
-    proj.meta = {"n_files": nf, "fmt": fmt, "explicit_cfg": explicit_cfg, "quote": quote,
+    proj.meta = {"cfg_extra": commit_cfg, "bom_files": proj.meta.get("bom_files", []), "n_files": nf, "fmt": fmt, "explicit_cfg": explicit_cfg, "quote": quote,
                  "shared_lines": sum(1 for _ in _shared_lines(proj)), "kinds": sorted({p.kind for p in proj.plants}),
                  "eols": sorted(set(proj.eol.values())), "globs": sum(1 for k, _ in entries if "*" in k or "?" in k)}
     return proj, None
@@ -598,3 +602,123 @@ def check_after(proj, after, new_state, new_text, check_pep=True):
         if fn not in proj.files:
             problems.append(("unexpected-file", fn))
     return problems
+
+
+# ---------------------------------------------------------------------------------------
+# legacy ({..}) projects: simple hand-shaped layouts (filler has no digits, so nothing else can match)
+
+LEGACY_VPS = ["{pycalver}", "{semver}", "v{year}{month}{build}{release}", "{year}{build}{release}",
+              "{year}.{month}.{dom}", "{MAJOR}.{MINOR}.{PATCH}{release}", "{calver}{build}{release}", "{year}.{doy}.{build_no}"]
+LEGACY_DECOR = [('__version__ = "', '"'), ("version='", "'"), ("tag: ", " ;"), ("release (", ")"), ("pkg==", " #")]
+
+
+def gen_legacy_project(R, bvmods, *, n_files=None, eol_choices=("\n",)):
+    import datetime as dt
+    from bvmon import ref_v1
+    proj = Project()
+    proj.legacy = True
+    vp = R.choice(LEGACY_VPS)
+    proj.vp = vp
+    ast = ref_v1.parse_pattern(vp)
+    names = ref_v1.parts_in(ast)
+    d = dt.date(2000, 1, 1) + dt.timedelta(R.randint(0, 36000))
+    has_tag = any(n in names for n in ("release", "tag"))
+    st = ref_v1.state_from_date(d, R.choice(["0001", "0999", "1000", "1001", "1999", "22000"]),
+                                R.choice(ref_v1.TAGS) if has_tag else "final", R.choice([0, 1, 9]), R.choice([0, 9, 10]),
+                                R.choice([0, 1, 99]))
+    proj.cur_state = st
+    proj.cur_text = ref_v1.render(ast, st)
+    proj.fmt = "toml"
+    proj.cfg_name = R.choice(["bumpver.toml", "pyproject.toml"])
+    nf = n_files if n_files is not None else R.randint(1, 5)
+    fnames = R.sample(NAMES, nf)
+    entries = []
+    for fn in fnames:
+        decs = R.sample(LEGACY_DECOR, R.randint(1, 3))
+        pats = [a + "{version}" + b for a, b in decs]
+        entries.append((fn, pats))
+    selfp = 'current_version = "{version}"'
+    explicit = R.random() < 0.5
+    if explicit:
+        entries.insert(R.randint(0, len(entries)), (proj.cfg_name, [selfp]))
+    proj.entries = entries
+    proj.file_patterns = {k: list(v) for k, v in entries}
+    proj.write_order = [k for k, _ in entries]
+    if not explicit:
+        proj.file_patterns[proj.cfg_name] = [selfp]
+        proj.write_order.append(proj.cfg_name)
+    for fn, pats in entries:
+        if fn == proj.cfg_name:
+            continue
+        eol = R.choice(eol_choices)
+        proj.eol[fn] = {"\n": "LF", "\r\n": "CRLF", "\r": "CR"}.get(eol, "LF")
+        out = []
+        pos = 0
+        order = list(pats)
+        R.shuffle(order)
+        for raw in order:
+            for _ in range(R.randint(0, 2)):
+                t = plain_filler(R) + eol
+                out.append(t)
+                pos += len(t)
+            pre = plain_filler(R, R.randint(0, 2)) + " "
+            occ = raw.replace("{version}", proj.cur_text)
+            out.append(pre)
+            pos += len(pre)
+            proj.plants.append(Plant(file=fn, start=pos, end=pos + len(occ), kind="version", raw=raw,
+                                     norm=raw.replace("{version}", vp), ast=None, text=occ))
+            out.append(occ + eol)
+            pos += len(occ) + len(eol)
+        proj.files[fn] = "".join(out)
+    proj.files[proj.cfg_name] = build_config(proj, R)
+    needle = f'current_version = "{proj.cur_text}"'
+    idx = proj.files[proj.cfg_name].find(needle)
+    proj.plants.append(Plant(file=proj.cfg_name, start=idx, end=idx + len(needle), kind="version", raw=selfp,
+                             norm=selfp.replace("{version}", vp), ast=None, text=needle))
+    proj.eol[proj.cfg_name] = "LF"
+    proj.meta = {"n_files": nf, "fmt": "toml", "explicit_cfg": explicit, "legacy": True, "kinds": ["version"],
+                 "eols": sorted(set(proj.eol.values())), "globs": 0, "shared_lines": 0}
+    return proj, None
+
+
+def expected_files_legacy(proj, new_text):
+    """{relpath: str} after a successful legacy update (every occurrence shows the new version)"""
+    out = {}
+    for fn, old in proj.files.items():
+        plants = sorted((pl for pl in proj.plants if pl.file == fn), key=lambda p: p.start, reverse=True)
+        t = old
+        for pl in plants:
+            t = t[:pl.start] + pl.text.replace(proj.cur_text, new_text) + t[pl.end:]
+        out[fn] = t
+    return out
+
+
+def reorder_entries(proj, perm, R=None):
+    """Same project with the file entries of the configuration in another order (config text rebuilt)."""
+    import copy
+    q = copy.copy(proj)
+    q.entries = [proj.entries[i] for i in perm]
+    q.files = dict(proj.files)
+    # quoting style of the original config is kept: rebuild with the same settings
+    quote = '"' + proj.cur_text + '"' in proj.files[proj.cfg_name]
+    q.files[proj.cfg_name] = build_config(q, R, quote=quote, extra=proj.meta.get("cfg_extra"))
+    # recompute write order (first appearance; implicit config last)
+    import fnmatch
+    order = []
+    names = [n for n in proj.files]
+    for key, _p in q.entries:
+        for n in sorted(names):
+            if (n == key or (("*" in key or "?" in key) and fnmatch.fnmatchcase(n, key) and n.count("/") == key.count("/"))) \
+                    and n not in order:
+                order.append(n)
+    if proj.cfg_name not in order:
+        order.append(proj.cfg_name)
+    q.write_order = order
+    # the config's own planted line moved
+    needle = [pl for pl in proj.plants if pl.file == proj.cfg_name][0].text
+    idx = q.files[proj.cfg_name].find(needle)
+    q.plants = [pl for pl in proj.plants if pl.file != proj.cfg_name]
+    old = [pl for pl in proj.plants if pl.file == proj.cfg_name][0]
+    q.plants.append(Plant(file=proj.cfg_name, start=idx, end=idx + len(needle), kind=old.kind, raw=old.raw,
+                          norm=old.norm, ast=old.ast, text=needle))
+    return q
